@@ -81,6 +81,9 @@ package rpc
 //@   ensures mark: (id == i0 && gen.i == i0+1) || (id < i0 && gen.i == i0)
 //@   ensures others: len(gen.free) == n0 && forall(0, n0, func(w int) bool {
 //@     return implies(uint(w) != uint(id)/64 || id == i0, gen.free[w] == atOldWord(func() uint64 { return gen.free[w] })) })
+//@   ensures sameword: implies(id < i0, gen.free[int(id/64)] == atOldWord(func() uint64 { return gen.free[int(id/64)] })&^(uint64(1)<<(id%64)))
+//@   -- the same, on the abstract view: no other id changes its status
+//@   ensures view: forall(0, 1<<32, func(k int) bool { return implies(uint32(k) != id, inSet(gen.free, uint(k)) == atOldIn(func() bool { return inSet(gen.free, uint(k)) })) })
 
 //@ spec
 //@ func atOldIn(f func() bool) bool { panic("spec") }
@@ -91,5 +94,11 @@ package rpc
 //@   props C06 C07
 //@   requires genOK(gen) && i < gen.i
 //@   old i0 uint32 = gen.i
+//@   old n0 int = len(gen.free)
 //@   ensures genOK(gen) && gen.i == i0
-//@   ensures inSet(gen.free, uint(i))
+//@   ensures inSet(gen.free, uint(i)) && len(gen.free) >= n0
+//@   ensures others: forall(0, len(gen.free), func(w int) bool {
+//@     return implies(uint(w) != uint(i)/64, implies(w < n0, gen.free[w] == atOldWord(func() uint64 { return gen.free[w] })) && implies(w >= n0, gen.free[w] == 0)) })
+//@   ensures sameword: implies(uint(i)/64 < uint(n0), gen.free[int(i/64)] == atOldWord(func() uint64 { return gen.free[int(i/64)] })|(uint64(1)<<(i%64))) &&
+//@     implies(uint(i)/64 >= uint(n0), gen.free[int(i/64)] == uint64(1)<<(i%64))
+//@   ensures view: forall(0, 1<<32, func(k int) bool { return implies(uint32(k) != i, inSet(gen.free, uint(k)) == atOldIn(func() bool { return inSet(gen.free, uint(k)) })) })
